@@ -233,6 +233,11 @@ class State:
         self.ncell = 0
         self.tape = []  # cids ahead of the cursor
         self.eof = False  # True: exactly len(tape) bytes remain
+        # a measured look-ahead: position token `ahead[0]` sits in front of tape[ahead[1]]; while
+        # `run` (a byte-class mask) is set, an unknown number (>= 0) of bytes of that class lies
+        # between tape[ahead[1]-1] and the token (unfolded on demand, see Machine.unfold_run)
+        self.ahead = None
+        self.run = None
         # position tokens behind (or at) the cursor, oldest first; gaps[i] = (lo, exact) distance
         # chain[i] -> chain[i+1]; cur_gap = distance chain[-1] -> cursor
         self.chain = ["B"]
@@ -262,6 +267,8 @@ class State:
         s.ncell = self.ncell
         s.tape = list(self.tape)
         s.eof = self.eof
+        s.ahead = self.ahead
+        s.run = self.run
         s.chain = list(self.chain)
         s.gaps = list(self.gaps)
         s.cur_gap = self.cur_gap
@@ -319,6 +326,9 @@ class State:
             ex = ex and g[1]
         return lo, ex
 
+    def is_pos(self, s_):
+        return isinstance(s_, str) and (s_ == "E" or s_ in self.chain or (self.ahead is not None and s_ == self.ahead[0]))
+
     def rel_pos(self, terms, const):
         """Bounds (lo, hi, coefsum) of a linear expression over position tokens ('B', 'T<n>',
         'E'): for coefsum 0 the value itself, for coefsum 1 the value relative to the cursor.
@@ -331,13 +341,18 @@ class State:
         if coefsum not in (0, 1):
             return None
         # positions in order: chain[0..n-1], CUR, E ; segment k lies between position k and k+1
-        order = list(self.chain) + ["$CUR", "E"]
+        if self.ahead is None:
+            order = list(self.chain) + ["$CUR", "E"]
+            segs = list(self.gaps) + [self.cur_gap, (len(self.tape), self.eof)]
+        else:
+            tok, idx = self.ahead
+            order = list(self.chain) + ["$CUR", tok, "E"]
+            segs = list(self.gaps) + [self.cur_gap, (idx, self.run is None), (len(self.tape) - idx, self.eof)]
         for s_ in w:
             if s_ not in order:
                 return None
         if coefsum == 1:
             w["$CUR"] = w.get("$CUR", 0) - 1
-        segs = list(self.gaps) + [self.cur_gap, (len(self.tape), self.eof)]
         # weight of segment k = sum of coefficients of positions after it
         lo = hi = const
         suffix = 0
@@ -748,6 +763,8 @@ class Machine:
 
     def need_tape(self, st, n):
         """Ensure n cells are materialised ahead of the cursor, or raise Fork."""
+        if st.run is not None and n > st.ahead[1]:
+            self.unfold_run(st)
         have = len(st.tape)
         if have >= n:
             return True
@@ -768,6 +785,57 @@ class Machine:
 
         raise Fork([("more@%d" % k, more), ("eof@%d" % k, end)], "input length")
 
+    def unfold_run(self, st):
+        """The measured run of look-ahead bytes is either empty or starts with one more byte of its
+        class (run = eps | byte . run): the two refinements of a pending run."""
+        mask = st.run
+
+        def empty(s):
+            s.run = None
+
+        def more(s):
+            tok, idx = s.ahead
+            c = s.new_cell(mask)
+            s.tape.insert(idx, c)
+            s.ahead = (tok, idx + 1)
+
+        raise Fork([("run-ends", empty), ("run-continues", more)], "length of the measured look-ahead run")
+
+    def ahead_rel(self, st, loc):
+        """j when loc is exactly j bytes after the measured-run token (j >= 0), else None."""
+        if st.ahead is None or loc[0] != "B":
+            return None
+        tok = st.ahead[0]
+        if dict(loc[1]).get(tok) != 1:
+            return None
+        rest = tuple((s_, c) for s_, c in loc[1] if s_ != tok)
+        if rest:
+            r = st.rel_pos(rest, loc[2])
+            if r is None or r[2] != 0 or r[0] is None or r[0] != r[1]:
+                return None
+            return r[0] if r[0] >= 0 else None
+        return loc[2] if loc[2] >= 0 else None
+
+    def need_after(self, st, total):
+        """Ensure len(tape) >= total by materialising cells at the far end (behind any pending run)."""
+        if len(st.tape) >= total:
+            return True
+        if st.eof:
+            return False
+
+        def more(s):
+            c = s.new_cell(FULL & ~s.flags.get("tape_excl", 0))
+            s.tape.append(c)
+            if self.hooks is not None:
+                self.hooks.on_materialise(self, s, c)
+
+        def end(s):
+            s.eof = True
+            if self.hooks is not None:
+                self.hooks.on_eof(self, s)
+
+        raise Fork([("more-after-run", more), ("eof-after-run", end)], "input length")
+
     def read_buf(self, st, loc, tid):
         t = self.ty(tid)
         if t["k"] == "int" and t["size"] == 1:
@@ -777,11 +845,18 @@ class Machine:
         else:
             raise Unanalysable("read of type %s from the input buffer" % t["s"])
         r = self.buf_rel(st, loc)
-        if r is None:
-            raise Unanalysable("read at inexact buffer position")
         cells = []
-        for i in range(n):
-            cells.append(self.buf_cell(st, r + i))
+        if r is None:
+            j = self.ahead_rel(st, loc)
+            if j is None:
+                raise Unanalysable("read at inexact buffer position")
+            idx = st.ahead[1]
+            ok = self.need_after(st, idx + j + n)
+            self.oblige(st, "deref-in-bounds", ok, "read %d byte(s) after the measured look-ahead run with fewer proven to remain" % (j + n))
+            cells = [st.tape[idx + j + i] for i in range(n)]
+        else:
+            for i in range(n):
+                cells.append(self.buf_cell(st, r + i))
         u8 = lambda c: self.mk_cell(st, c, TABLES.get(TABLES.ident), 8, False)
         if t["k"] == "int":
             v = u8(cells[0])
@@ -866,7 +941,7 @@ class Machine:
         other = []
         lo = hi = const
         for s, c in terms:
-            if isinstance(s, str) and (s == "E" or (s[0] in "BT" and s in st.chain)):
+            if st.is_pos(s):
                 pos_terms.append((s, c))
             elif isinstance(s, tuple) and s[0] == "c":
                 tab = TABLES.get(s[2])
@@ -883,7 +958,9 @@ class Machine:
             plo, phi, coefsum = r
             if coefsum != 0:
                 # an absolute address: only known to be a non-null, non-wrapping machine address
-                return (1 if all(c > 0 for _, c in pos_terms) and not other else None), None
+                if not other and (all(c > 0 for _, c in pos_terms) or (plo is not None and st.tok_dist("B")[0] + plo + const >= 0)):
+                    return 1, None  # not before the buffer start: a non-null address
+                return None, None
             lo = None if plo is None else lo + plo
             hi = None if phi is None else hi + phi
         if other:
@@ -936,10 +1013,13 @@ class Machine:
             return res
         # undecided: find something to fork on
         terms = dict(d[1])
+        if st.run is not None and terms.get(st.ahead[0], 0) + terms.get("E", 0) != 0:
+            # the decision depends on the length of the measured look-ahead run
+            self.unfold_run(st)
         if "E" in terms and not st.eof:
             # the decision depends on how much input remains
-            self.need_tape(st, len(st.tape) + 1)
-        other = [(s, c) for s, c in d[1] if not (isinstance(s, str) and (s == "E" or s in st.chain))]
+            self.need_after(st, len(st.tape) + 1)
+        other = [(s, c) for s, c in d[1] if not st.is_pos(s)]
         if other and all(isinstance(s, str) for s, _ in other) and len(other) <= 2:
             # fork on the sign of the symbolic difference (capacity / count relations)
             rest = sym_norm([(s, c) for s, c in d[1] if (s, c) not in other], d[2], 0, True)
@@ -947,6 +1027,10 @@ class Machine:
                 k0 = rest[1]
                 return self.fork_other(st, op, other, k0)
         self.split_cell_term(st, d)
+        import os
+        if os.environ.get("DBG_DECIDE"):
+            import traceback; traceback.print_stack(limit=8)
+            print("DECIDE", op, d, "bounds", lo, hi, "chain", st.chain, st.gaps, st.cur_gap, "ahead", st.ahead, st.run, "tape", st.tape, st.eof, "facts", st.facts)
         raise Unanalysable("cannot decide %s on symbolic integers %s" % (op, self.show_sym(d)))
 
     def split_cell_term(self, st, v):
@@ -1648,8 +1732,8 @@ class Machine:
         if hi is not None:
             return True
         terms = dict(r[1]) if r[0] == "sym" else {}
-        possum = sum(c for s, c in terms.items() if isinstance(s, str) and (s == "E" or s in st.chain))
-        rest = [(s, c) for s, c in terms.items() if not (isinstance(s, str) and (s == "E" or s in st.chain))]
+        possum = sum(c for s, c in terms.items() if st.is_pos(s))
+        rest = [(s, c) for s, c in terms.items() if not st.is_pos(s)]
         return possum == 0 and all(c <= 1 for s, c in rest) and len(rest) <= 1 and r[2] <= 64
 
     def byte_binop(self, st, op, a, b, with_ovf):
